@@ -165,6 +165,20 @@ func verifHarness_C11_ContextWithTimeout() {
 	}
 	rt.Bound("events", events)
 	rt.MustCover("ctx:deadline", "ctx:rearmed", "ctx:base-cancelled", "ctx:suspended-overlap")
+	verifC11_contextWithTimeout(events, nil)
+}
+
+// Two expiries of the base timer with a stall before or across the first one
+// (four events in a fixed order, all instants symbolic): the second re-arm is
+// computed from the original budget, not from the previous re-arm.
+func verifHarness_C11_TwoExpiries() {
+	rt.Bound("events", 4)
+	rt.MustCover("ctx:rearmed", "ctx:rearmed-twice")
+	scripts := [][]int{{0, 2, 1, 2}, {0, 1, 2, 2}}
+	verifC11_contextWithTimeout(4, scripts[rt.Choose(2)])
+}
+
+func verifC11_contextWithTimeout(events int, script []int) {
 	base := &verifC11_base{armed: make(chan struct{}, 8)}
 	maxSusp := rt.NondetI64("maximumSuspension")
 	thr := rt.NondetI64("timeoutThreshold")
@@ -187,8 +201,15 @@ func verifHarness_C11_ContextWithTimeout() {
 	ghostAtCreation := g.at(createdAt)
 
 	finished := false
+	rearms := 0
 	for e := 0; e < events && !finished; e++ {
-		switch rt.Choose(4) {
+		var ev int
+		if script != nil {
+			ev = script[e]
+		} else {
+			ev = rt.Choose(4)
+		}
+		switch ev {
 		case 0: // suspend
 			t := base.advance("suspend.at")
 			if g.count == 0 {
@@ -223,6 +244,10 @@ func verifHarness_C11_ContextWithTimeout() {
 			select {
 			case <-base.armed:
 				rt.Cover("ctx:rearmed")
+				rearms++
+				if rearms == 2 {
+					rt.Cover("ctx:rearmed-twice")
+				}
 				nt := base.timers[len(base.timers)-1]
 				rt.Assert(nt.duration >= thr, "loop re-arms only while at least the threshold remains")
 				rt.Assert(rt.And(nt.duration <= d-gBefore, nt.duration >= d-gLatest), "re-armed for exactly the remaining unsuspended budget")
